@@ -32,7 +32,7 @@ def replay_sub(path):
         mode = first.get("mode", "")
         if mode == "ops" and first.get("inRun"):
             return "algo"
-        if mode in ("sel", "live", "mix", "bench"):
+        if mode in ("sel", "selopt", "live", "mix", "bench"):
             return "dir"
         return mode
     except Exception:
@@ -173,7 +173,7 @@ PROPS = {
         "modules": ["CambrianModel.Props.C08"],
         "theorems": ["Cambrian.Props.C08_seeds", "Cambrian.Props.C08_same", "Cambrian.Props.C08_count",
                      "Cambrian.Props.C08_ids", "Cambrian.Props.C08_first"],
-        "correspondences": ["ctl", "pop", "codec"],
+        "correspondences": ["ctl", "pop", "codec", "spec"],
         "trusted": CTL_TRUST,
         "assumptions": ["float laws used: none", "sample size >= 1 (AlgoConfigBuilder rejects 0)"],
     },
